@@ -97,7 +97,7 @@ class Kafka(Scenario):
             params["auto.offset.reset"] = p["reset"]
         return Stream.from_kafka_batched("t", params, poll_interval=POLL, npartitions=p["npartitions"],
                                          refresh_partitions=p["refresh"], max_batch_size=p["max_batch"],
-                                         asynchronous=True, loop=self.ioloop, keys="keys" in p.get("opts", ()))
+                                         asynchronous=("blocking" not in p.get("opts", ())), loop=self.ioloop, keys="keys" in p.get("opts", ()))
 
     def make_sink_fn(self, kind, name):
         inner = super().make_sink_fn(kind, name)
@@ -213,7 +213,7 @@ class Kafka(Scenario):
             params["auto.offset.reset"] = p["reset"]
         return Stream.from_kafka_batched("t", params, poll_interval=POLL, npartitions=None,
                                          refresh_partitions=p["refresh"], max_batch_size=p["max_batch"],
-                                         asynchronous=True, loop=self.ioloop, keys="keys" in p.get("opts", ()))
+                                         asynchronous=("blocking" not in p.get("opts", ())), loop=self.ioloop, keys="keys" in p.get("opts", ()))
 
     # ---- oracle -----------------------------------------------------------------------
     def check_step(self):
